@@ -87,6 +87,8 @@ def scenario_for(seed, index, tier, _random_only=False):
     rng = make_rng('scenario', ID, seed, index)
     sup = common.supported()
     proto = common.pick_proto(rng, sup)
+    if not _random_only and rng.random() < 0.06:
+        return handover_scenario(rng, proto)
     mode = rng.choice(['plain', 'plain', 'compressed', 'encrypted', 'both'])
     threshold = rng.choice([0, 1, 16, 64, 256])
     nthreads = rng.choice([1, 2, 2, 3, 3, 4])
@@ -158,6 +160,168 @@ def scenario_for(seed, index, tier, _random_only=False):
     }
 
 
+def handover_scenario(rng, proto):
+    """The object is reused: a first session is disconnected and connect()
+    is called again at once, so the writes and the final disconnect may find
+    the previous networking thread still winding down."""
+    n = rng.choice([0, 1, 2, 5])
+    return {
+        'proto': proto, 'mode': 'plain', 'threshold': 0,
+        'handover': {'first_immediate': rng.random() < 0.5,
+                     'linger_us': rng.choice([0, 0, 2000, 400000]),
+                     'first_write': rng.random() < 0.5,
+                     'writes': [[1000 + i, rng.choice([0, 5, 300])]
+                                for i in range(n)],
+                     'immediate': rng.random() < 0.25},
+        'threads': [], 'disc': {'by': 'coord', 'immediate': False},
+        'second_party': None,
+        'server': {'conns': [{'login': [['success']], 'play': []},
+                             {'login': [['hold']], 'play': []}]},
+        'net': {'latency_us': rng.choice([50, 200, 2000])},
+        'sched': {'granularity': 'line', 'max_steps': 400000},
+        'rand_seed': rng.randrange(2**32),
+    }
+
+
+def execute_handover(scenario, tape):
+    w = World(scenario, tape)
+    ho = scenario['handover']
+    st = {'errors': [], 'calls': []}
+
+    def build(w):
+        from minecraft.networking.connection import (Connection,
+                                                     PlayingReactor)
+        from minecraft.networking.packets import serverbound
+
+        def on_exit():
+            if ho['linger_us'] and len(w.net.conns) < 2:
+                w.sleep(ho['linger_us'])
+        conn = Connection('sim.example', 25565, username='writer0',
+                          allowed_versions=[scenario['proto']],
+                          handle_exception=lambda e, i:
+                          st['errors'].append(e),
+                          handle_exit=on_exit)
+
+        def plugin(tag, size):
+            return serverbound.play.PluginMessagePacket(
+                channel='dst', data=struct.pack('>I', tag) +
+                filler(tag, size))
+
+        def user():
+            st['calls'].append(w.api('connect', conn.connect))
+            w.wait_until(lambda: isinstance(conn.reactor, PlayingReactor)
+                         or st['errors'], 20000000)
+            if st['errors']:
+                return
+            if ho['first_write']:
+                st['calls'].append(w.api('write-q-1', conn.write_packet,
+                                         plugin(1, 3)))
+            st['calls'].append(w.api(
+                'disconnect', conn.disconnect,
+                immediate=ho['first_immediate']))
+            st['connect2'] = w.api('connect', conn.connect)
+            for tag, size in ho['writes']:
+                st['calls'].append(w.api('write-q-%d' % tag,
+                                         conn.write_packet,
+                                         plugin(tag, size)))
+            st['pending'] = conn.new_networking_thread is not None
+            st['disc'] = w.api('disconnect', conn.disconnect,
+                               immediate=ho['immediate'])
+            st['net_done'] = w.wait_until(
+                lambda: common.all_net_done(w.sim), 5000000)
+        w.sim.spawn(user, 'user0.0')
+
+    w.run(build)
+    res = common.result_from_world(w)
+    check_handover(scenario, w, st, res)
+    return res
+
+
+def check_handover(scenario, w, st, res):
+    sim = w.sim
+    V = res.violations
+    ho = scenario['handover']
+    res.summary = {'proto': scenario['proto'], 'handover': ho,
+                   'end': sim.end_state}
+    res.state_sigs = [('handover', ho['immediate'], ho['first_immediate'],
+                       bool(st.get('pending')), len(ho['writes']))]
+    res.obligations += 1
+    if sim.end_state == 'inconclusive':
+        return
+    if sim.end_state != 'done':
+        if sim.end_state in ('deadlock', 'step-cap', 'vtime-cap'):
+            V.append(('C12/%s:reused-object' % sim.end_state,
+                      repr(sim.end_detail)))
+        return
+    for t in sim.threads:
+        if t.kind == 'user' and t.exc is not None:
+            raise common.HarnessError('user thread raised %r' % (t.exc,))
+    c2 = st.get('connect2')
+    if c2 is None or not c2.ok or st.get('disc') is None:
+        # whether the second connect() is accepted is C16's business
+        return
+    res.nontrivial = True
+    if st.get('pending'):
+        res.probes['disconnect-while-hand-over-pending'] = 1
+    res.obligations += 1
+    for r in st['calls'] + [st['disc']]:
+        if not r.ok:
+            V.append(('C12/call-raised:reused-object',
+                      {'call': r.name, 'exc': repr(r.exc)}))
+            return
+    apps = w.server.apps
+    if len(apps) < 2:
+        V.append(('C12/no-connection:reused-object', len(apps)))
+        return
+    app = apps[1]
+    ids = ids_for(scenario['proto'])
+    res.obligations += 1
+    if app.errors:
+        V.append(('C12/torn-stream:reused-object', app.errors[:3]))
+        return
+    want = ['handshake', 'login-start'] + [t for t, _s in ho['writes']]
+    got = []
+    for i, (seq, state, pid, body, meta) in enumerate(app.frames):
+        if i == 0:
+            got.append('handshake' if state == 'handshake' and pid == 0
+                       else ('?', pid))
+        elif i == 1:
+            got.append('login-start' if pid == ids['sb.login.start']
+                       else ('?', pid))
+        else:
+            tag = None
+            if pid == ids['sb.play.plugin']:
+                try:
+                    ch, p = wire.read_string(body, 0)
+                    data = body[p:]
+                    tag = struct.unpack('>I', data[:4])[0]
+                    size = dict(ho['writes']).get(tag)
+                    if ch != 'dst' or size is None or \
+                            data[4:] != filler(tag, size):
+                        tag = None
+                except Exception:
+                    tag = None
+            got.append(tag if tag is not None else ('?', pid))
+    res.obligations += 2
+    if ho['immediate']:
+        if got != want[:len(got)]:
+            V.append(('C12/queue-order:reused-object',
+                      {'got': got, 'want': want}))
+    elif got != want:
+        if got == want[:len(got)]:
+            V.append(('C12/lost-before-disconnect:reused-object',
+                      {'got': got, 'want': want,
+                       'hand_over_pending': st.get('pending')}))
+        else:
+            V.append(('C12/queue-order:reused-object',
+                      {'got': got, 'want': want}))
+    res.obligations += 2
+    if not app.fin_seen:
+        V.append(('C12/not-closed:reused-object', None))
+    if not st.get('net_done'):
+        V.append(('C12/networking-thread-alive:reused-object', None))
+
+
 def policy(rng, scenario):
     p = rng.choice([0.0, 0.005, 0.02, 0.05, 0.2, 0.5])
     pe = rng.choice([0.0, 0.02, 0.1, 0.3])
@@ -181,6 +345,8 @@ def parties_of(scenario):
 
 
 def execute(scenario, tape):
+    if scenario.get('handover'):
+        return execute_handover(scenario, tape)
     w = World(scenario, tape)
     parties = parties_of(scenario)
     sts = []
@@ -434,6 +600,18 @@ def check(scenario, w, st, res, app=None):
 
 def shrink_scenario(sc):
     import copy
+    if sc.get('handover'):
+        ho = sc['handover']
+        for j in range(len(ho['writes'])):
+            c = copy.deepcopy(sc)
+            del c['handover']['writes'][j]
+            yield c
+        for k in ('first_write', 'linger_us'):
+            if ho[k]:
+                c = copy.deepcopy(sc)
+                c['handover'][k] = 0 if k == 'linger_us' else False
+                yield c
+        return
     if sc.get('second_party'):
         c = copy.deepcopy(sc)
         c['second_party'] = None
@@ -495,5 +673,5 @@ def evidence(tier, seed, m, d):
              'writes x final disconnect, framing mode, protocol) + seeded '
              'schedule tape; evaluations = oracle obligations checked; a run '
              'is non-trivial when at least one pre-emption fired; distinct = '
-             '8% of the seeded scenarios run a second Connection object with its own writers in the same process; 6% contain a burst of 301..650 queued packets followed by the disconnect; distinct run digests (hash of every scheduler step and I/O '
+             '6% reuse one object (session, disconnect, connect again at once, queued writes, disconnect while the previous networking thread may still be winding down); 8% of the seeded scenarios run a second Connection object with its own writers in the same process; 6% contain a burst of 301..650 queued packets followed by the disconnect; distinct run digests (hash of every scheduler step and I/O '
              'event)' % DIRECTED[tier])
